@@ -11,7 +11,7 @@ pub fn props() -> Vec<Prop> {
         id: "C05",
         run: c05,
         tools: Some(no_io_trace),
-        rule: "oracle 1: Memfs::abs under every cwd of a bounded tree and Stdfs::abs under the matching process cwd are compared with a string-level reference (expand, trim protocol, Go-clean, resolve leading '..' against the cwd) for every string up to length 6 (quick) / 8 (thorough) over {/ . ~ $ : a e-acute}, scheme-prefixed variants and seeded random longer strings, with HOME in {/h, /h/e-acute, /} (one value per worker process) and a fixed list of home-shortcut and $HOME spellings under HOME values that are not clean absolute paths themselves (trailing separator, inner .., relative, scheme-prefixed); the result must be absolute, free of '.', '..', '//' and trailing '/', idempotent, and equal on both backends. oracle 2 (spelling independence): for prepared states x every path-taking method x every spelling of the argument (relative to the cwd, ./x, x/, x/., doubled separator, x/../x, file://, ~, $HOME, ${HOME}) the call on one instance and the call with abs(argument) on an identical instance must give equal results and equal complete states - Memfs through the hook snapshot, Stdfs through the disk observer. oracle 3 (no IO): strace -e trace=%file of a child that brackets 10^4 abs() calls per backend between marker syscalls; nothing may appear between the markers (getcwd is allowed for the real backend only in the section whose inputs are relative; a third section holds only absolute, ~, $HOME and scheme-prefixed inputs); the same child then removes its own working directory and the absolute inputs must still give what the in-memory backend gives, / must still exist and set_cwd must lead out. distinct_nontrivial = distinct (backend, cwd, string class, outcome class) tuples + (method, spelling kind).",
+        rule: "oracle 1: Memfs::abs under every cwd of a bounded tree (one of them entered through a link to a directory elsewhere) and Stdfs::abs under the matching process cwd are compared with a string-level reference (expand, trim protocol, Go-clean, resolve leading '..' against the cwd) for every string up to length 6 (quick) / 8 (thorough) over {/ . ~ $ : a e-acute}, scheme-prefixed variants and seeded random longer strings, with HOME in {/h, /h/e-acute, /} (one value per worker process) and a fixed list of home-shortcut and $HOME spellings under HOME values that are not clean absolute paths themselves (trailing separator, inner .., relative, scheme-prefixed); the result must be absolute, free of '.', '..', '//' and trailing '/', idempotent, and equal on both backends. oracle 2 (spelling independence): for prepared states x every path-taking method x every spelling of the argument (relative to the cwd, ./x, x/, x/., doubled separator, x/../x, file://, ~, $HOME, ${HOME}) the call on one instance and the call with abs(argument) on an identical instance must give equal results and equal complete states - Memfs through the hook snapshot, Stdfs through the disk observer. oracle 3 (no IO): strace -e trace=%file of a child that brackets 10^4 abs() calls per backend between marker syscalls; nothing may appear between the markers (getcwd is allowed for the real backend only in the section whose inputs are relative; a third section holds only absolute, ~, $HOME and scheme-prefixed inputs); the same child then removes its own working directory and the absolute inputs must still give what the in-memory backend gives, / must still exist and set_cwd must lead out. distinct_nontrivial = distinct (backend, cwd, string class, outcome class) tuples + (method, spelling kind).",
         assumptions: &["non-UTF-8 paths are outside 'every non-empty path string'", "strings whose variable name is not delimited unambiguously are not judged", "'no IO' is decided on the syscall trace of the workload that ran"],
         shards_quick: 8,
         shards_thorough: 16,
@@ -69,6 +69,14 @@ fn c05_strings(ctx: &Ctx, rep: &mut Report, home: &str, sroot: &str, only: Optio
         let _ = mem.mkdir_p(c);
         cwds.push((c.to_string(), real));
     }
+    // in-memory backend only: a working directory that was entered through a LINK to a directory, two levels away
+    // from where the link lives. The statement is lexical - ".." leaves it towards the link's parent, whatever the
+    // entries say (the real backend's cwd is the resolved directory, so there is no counterpart there)
+    let _ = mem.mkdir_p("/far/away/deep");
+    let _ = mem.symlink("/lk", "/far/away/deep");
+    if mem.set_cwd("/lk").is_ok() {
+        cwds.push(("/lk".to_string(), String::new()));
+    }
     let max = if ctx.thorough { 8 } else { 6 };
     let alpha = ["/", ".", "~", "$", ":", "a", "é"];
     let mut check = |s: &str, rep: &mut Report| {
@@ -77,6 +85,9 @@ fn c05_strings(ctx: &Ctx, rep: &mut Report, home: &str, sroot: &str, only: Optio
             for (which, cwd) in [("memfs", vc.as_str()), ("memfs@real", real.as_str()), ("stdfs", real.as_str())] {
                 if which != "memfs" && ci % 2 == 1 && s.len() > 3 {
                     continue; // thin the real-cwd half
+                }
+                if which != "memfs" && real.is_empty() {
+                    continue; // the link cwd exists in memory only
                 }
                 rep.eval();
                 let expected = ref_abs(&env, cwd, s);
